@@ -6,6 +6,8 @@ open Nngv_model
 open Conv
 
 let naio = 32
+let fixed = c02_EXPIRE_RECHECK_FIXED
+let astep = astep fixed
 let st : aio option array = Array.make naio None
 let tmo : int array = Array.make naio (-1)
 let now = ref 0
@@ -116,14 +118,31 @@ let replay () =
   for k = 0 to naio - 1 do
     let a = Array.of_list (List.rev recs.(k)) in
     let cur = ref fw0 in
-    Array.iteri (fun i (seq, kind, arg, logged) ->
-      let pre = !cur in
-      let tk = (match kind with
+    let skip = ref (-1) in
+    let tk_of kind arg (logged : fw) = (match kind with
         | 1 -> Some (TStartOk (arg <> 0, logged.f_on_eq)) | 2 -> Some TStartStopped | 3 -> Some TStartAborted
         | 4 -> Some TStartTimeout | 5 -> Some (TFinish (n_of_int arg)) | 6 -> Some (TAbort (n_of_int arg))
         | 7 -> Some TStop | 8 -> Some TClose | 9 -> Some TFini | 10 -> Some (TExpire (n_of_int arg))
         | 11 -> Some TExpireDone | 12 -> Some (TSleepCancel (n_of_int arg)) | 13 -> Some TReset
-        | 14 -> Some TSleepSetup | _ -> None) in
+        | 14 -> Some TSleepSetup | 15 -> Some TExpireMark | 16 -> Some TExpireSkip | _ -> None) in
+    Array.iteri (fun i (seq, kind, arg, logged) ->
+      if i = !skip then cur := logged else begin
+      let pre = !cur in
+      let tk = tk_of kind arg logged in
+      (* the records of nni_aio_reset / nni_sleep_aio are taken without eq_mtx: the snapshot may already
+         contain the effect of the critical section whose record comes next *)
+      let overtaken () =
+        (kind = 13 || kind = 14) && i + 1 < Array.length a &&
+        (let (_, k2, a2, l2) = a.(i + 1) in
+         match tk_of k2 a2 l2, tk with
+         | Some t2, Some t1 ->
+             (match fw_step t2 pre with
+              | Some mid -> (match fw_step t1 mid with
+                             | Some e -> let e = if kind = 14 then { e with f_expire_ok = logged.f_expire_ok } else e in
+                                         e = logged && (skip := i + 1; true)
+                             | None -> false)
+              | None -> false)
+         | _ -> false) in
       (* nni_aio_reset / nni_sleep_aio write a_abort, a_result, a_expire_ok, a_sleep without eq_mtx:
          a record next to one of them may show those four fields mid-update *)
       let near_unlocked =
@@ -142,10 +161,11 @@ let replay () =
               let exp = if kind = 14 then { exp with f_expire_ok = logged.f_expire_ok } else exp in
               if exp <> logged then begin
                 if near_unlocked && same_locked exp logged then incr races
+                else if overtaken () then incr races
                 else (incr bad;
                       Printf.printf "MISMATCH seq=%d aio=%d kind=%d pre: %s ; model: %s ; logged: %s\n" seq k kind (show pre) (show exp) (show logged))
               end));
-      cur := logged) a
+      cur := logged end) a
   done;
   Printf.printf "replayed=%d mismatches=%d unlocked_reset_races=%d kinds=%s\n" !nrec !bad !races
     (String.concat "," (List.map (fun (k, n) -> Printf.sprintf "%d:%d" k n) (List.sort compare (Hashtbl.fold (fun k n acc -> (k, n) :: acc) kinds []))))
